@@ -41,7 +41,7 @@ PROPS = {
     "C03": P_(["scheduler", "values", "digraph", "dagproto", "graphbuild", "nodebuild"], ["programs_flat", "selection", "graph_build"], dict(SW, active=True)),
     "C04": P_(["scheduler", "values", "dagproto", "dagadmin"], ["config"], dict(SW)),
     "C05": P_(["scheduler", "nodeexec"], ["config"], dict(SW)),
-    "C06": P_(["scheduler", "digraph", "dagproto", "graphbuild"], ["config", "graph_build"], dict(SW)),
+    "C06": P_(["scheduler", "digraph", "dagproto", "graphbuild"], ["config", "graph_build", "priority_table"], dict(SW)),
     "C07": P_(["digraph", "dagproto", "nodeexec", "dagadmin", "graphbuild"], ["priority_table", "config", "graph_build"]),
     "C08": P_(["scheduler", "dagproto", "dagadmin", "graphbuild"], ["config", "graph_build"], dict(SW)),
     "C09": P_(["scheduler", "values", "graphbuild"], ["graph_build"], dict(SW, fail=True, active=True)),
